@@ -211,7 +211,24 @@ func decorate(s *script, r *rand.Rand, idx int) {
 	used := map[string]bool{}
 	// the three names of the TLC scripts ("Cat", "cat", "Ca") become a family of related names: an implementation
 	// that compares names loosely (case folding, prefixes, byte classes) confuses exactly such siblings
-	for i, v := range nameFamily(r, mode) {
+	// Deep paths (one script in eight): everything the script does happens below a chain of 15 nested bundles with
+	// 255-byte names (path data 3870 bytes), and the three item names get lengths that put the 4096th byte of the path
+	// data - the size of the buffer the path decoder starts with - at chosen places of the next item: its header split
+	// after 2, 1 or 0 bytes (names of 221, 222, 223 bytes), or in the middle of a name (230 bytes).  Such paths name
+	// existing items, created level by level through the protocol like everything else.
+	deep := idx%8 == 5
+	family := nameFamily(r, mode)
+	var chain [][]byte
+	if deep {
+		for i := 0; i < 15; i++ {
+			chain = append(chain, bytes.Repeat([]byte{letters[(idx+i)%len(letters)]}, 255))
+		}
+		lens := [][]int{{221, 222, 223}, {223, 221, 222}, {230, 221, 100}, {222, 223, 221}}[(idx/8)%4]
+		for i := range family {
+			family[i] = bytes.Repeat([]byte{letters[(idx+20+i)%len(letters)]}, lens[i])
+		}
+	}
+	for i, v := range family {
 		k := []string{"Cat", "cat", "Ca"}[i]
 		names[k] = v
 		used[string(v)] = true
@@ -268,6 +285,11 @@ func decorate(s *script, r *rand.Rand, idx int) {
 		}
 		return text(r, r.Intn(10), 5000)
 	}
+	if deep {
+		// the post request (path of up to 4.4 KiB + title + body) must still fit the 65 536-byte transaction
+		inner := body
+		body = func() []byte { return clip(inner(), maxBody-6*1024) }
+	}
 	toAny := func(b []byte) any {
 		out := []any{}
 		for _, p := range canon(b) {
@@ -277,6 +299,9 @@ func decorate(s *script, r *rand.Rand, idx int) {
 	}
 	mapPath := func(v any) any {
 		out := []any{}
+		for _, n := range chain {
+			out = append(out, toAny(n))
+		}
 		for _, n := range pathOf(v) {
 			out = append(out, toAny(rename(n)))
 		}
@@ -298,9 +323,20 @@ func decorate(s *script, r *rand.Rand, idx int) {
 			st["name"] = toAny(user())
 		}
 	}
-	// a request about an article in a category that does not exist (its parent, the root, does)
-	if r.Intn(5) == 0 {
+	// a request about an article in a category that does not exist (its parent does)
+	if !deep && r.Intn(5) == 0 {
 		ghost := rename([]byte("\x00ghost"))
-		s.Steps = append(s.Steps, map[string]any{"op": "delart", "path": []any{toAny(ghost)}, "id": float64(1 + r.Intn(2))})
+		s.Steps = append(s.Steps, map[string]any{"op": "delart", "path": mapPath([]any{toAny(ghost)}), "id": float64(1 + r.Intn(2))})
+	}
+	if deep {
+		var pre []map[string]any
+		for i, n := range chain {
+			par := []any{}
+			for _, m := range chain[:i] {
+				par = append(par, toAny(m))
+			}
+			pre = append(pre, map[string]any{"op": "mkbundle", "path": par, "name": toAny(n)})
+		}
+		s.Steps = append(pre, s.Steps...)
 	}
 }
